@@ -304,9 +304,13 @@ class Grammar:
         terminal order).  ``retag(prev, kind, text)`` models the interactive retagging; ``prev`` is
         the (kind, text) of the previously shifted token or None.  Returns (accepted, reason, kinds)."""
         stack = [self.start_state]
+        vstack: list[str] = []  # 'T' shifted token / 'N' reduced nonterminal, parallel to the value stack
         prev: tuple | None = None
         kinds: list[str] = []
         seq = list(items) + [("K", "$END")]
+        import inspect
+
+        wants_below = retag is not None and len(inspect.signature(retag).parameters) >= 4
         for idx, (how, x) in enumerate(seq):
             if how == "W":
                 k = self.lex_kind(x, self.accepts.get(stack[-1], []))
@@ -316,7 +320,11 @@ class Grammar:
             else:
                 k, text = x, None
             if retag is not None and k != "$END":
-                k = retag(prev, k, text)
+                if wants_below:
+                    below = None if len(vstack) < 2 else ("token" if vstack[-2] == "T" else "tree")
+                    k = retag(prev if vstack and vstack[-1] == "T" else None, k, text, below)
+                else:
+                    k = retag(prev, k, text)
             kinds.append(k)
             steps = 0
             while True:
@@ -329,12 +337,15 @@ class Grammar:
                 a, arg = acts[k]
                 if a == "S":
                     stack.append(arg)
+                    vstack.append("T")
                     prev = (k, text)
                     break
                 n = len(arg.expansion)
                 if n:
                     del stack[-n:]
+                    del vstack[-n:]
                 stack.append(self.states[stack[-1]][arg.origin.name][1])
+                vstack.append("N")
                 if k == "$END" and stack[-1] == self.end_state:
                     return True, "accepted", kinds
         return False, "input ended without acceptance", kinds
